@@ -17,17 +17,30 @@ STREAM_CLASSES = ('asl::StreamBuffer', 'asl::File', 'asl::Socket')
 RAW_CLASSES = ('asl::StreamBuffer', 'asl::File', 'asl::Socket', 'asl::Socket_', 'asl::TlsSocket_', 'asl::PacketSocket_', 'asl::LocalSocket_')
 
 
-def is_raw_transfer(e):
+PROG = None
+
+
+def is_raw_transfer(e, _depth=0):
     """call of a member read/write(void*, int) of a stream class"""
     if e.get('k') != 'call' or e.get('ck') != 'method':
         return False
     if e.get('clsp') not in RAW_CLASSES:
         return False
     name = (e.get('pq') or '').rsplit('::', 1)[-1]
-    if name not in ('read', 'write'):
-        return False
     sig = e.get('sig', '')
-    return sig.startswith('(const void *,int') or sig.startswith('(void *,int')
+    if not (sig.startswith('(const void *,int') or sig.startswith('(void *,int')):
+        return False
+    if name in ('read', 'write'):
+        return True
+    # a forwarding wrapper of the same stream class (`readRaw(p, n)`): its body performs exactly one raw transfer of its own
+    # (pointer, count) parameters
+    if _depth < 2 and PROG is not None:
+        for h in PROG.fn(e.get('fn'), sig):
+            if h.get('body') and len(h.get('params', [])) >= 2:
+                inner = [x for x in fn_exprs(h) if is_raw_transfer(x, _depth + 1)]
+                if len(inner) == 1 and strip(inner[0]['a'][0]).get('id') == h['params'][0]['id'] and strip(inner[0]['a'][1]).get('id') == h['params'][1]['id']:
+                    return True
+    return False
 
 
 def sizeof_nodes(e):
@@ -81,6 +94,8 @@ def run(ctx):
                                                              ('File.cpp', 'Socket.cpp', 'Http.cpp', 'WebSocket.cpp', 'HttpServer.cpp', 'TextFile.cpp')]
     prog = ir.load_units(units + lib, force_inst=units)
     ctx.use_program(prog)
+    global PROG
+    PROG = prog
     other_val = q.enum_value(prog, 'asl::Endian', 'ENDIAN_BIG')   # x86-64 build target is little-endian: ASL_OTHER_ENDIAN = ENDIAN_BIG
 
     # ---------------------------------------------------------------- R-UNITS
@@ -306,12 +321,15 @@ def interp_partial(ctx, prog, f):
                 calls = []
                 it = iter(script)
 
-                def osio(run, e, args, calls=calls, it=it):
+                results = []
+
+                def osio(run, e, args, calls=calls, it=it, results=results):
                     calls.append((args[1], args[2]))
                     try:
                         r_ = next(it)
                     except StopIteration:
-                        return 0
+                        r_ = -1             # a loop that retries after a result of 0 meets an error next
+                    results.append(r_)
                     return r_
                 bufs = {'B': [0] * (N + 8)}
                 r = scansim.Run(prog, f, bufs, ptr_params={f['params'][0]['id']: ('P', 'B', 0)}, int_params={f['params'][1]['id']: N},
@@ -319,33 +337,26 @@ def interp_partial(ctx, prog, f):
                 runs += 1
                 got = r.run()
                 done = 0
-                k = 0
                 for k, (ptr, cnt) in enumerate(calls):
                     if not (isinstance(ptr, tuple) and ptr[0] == 'P' and ptr[1] == 'B'):
                         return None
                     if ptr[2] != done or cnt != N - done:
                         return 'bad', 'with %d of %d bytes transferred the next call passes offset %s and count %s (script of OS results %s)' % (done, N, ptr[2], cnt, script)
-                    res = script[k] if k < len(script) else 0
-                    if res <= 0:
-                        if k + 1 < len(calls):
+                    res = results[k]
+                    last = k + 1 == len(calls)
+                    if res < 0:
+                        if not last:
                             return 'bad', 'the loop calls the OS again after it returned %d (script %s)' % (res, script)
                         break
                     done += res
-                    if done >= N and k + 1 < len(calls):
+                    if done >= N and not last:
                         return 'bad', 'with %d of %d bytes transferred the loop goes on (script %s)' % (done, N, script)
-                want_calls = 0
-                acc = 0
-                for res in script:
-                    want_calls += 1
-                    if res <= 0:
-                        break
-                    acc += res
-                    if acc >= N:
-                        break
-                if len(calls) != want_calls:
-                    return 'bad', 'the OS is called %d time(s) for the script %s of partial results, %d call(s) complete the transfer of %d bytes' % (len(calls), script, want_calls, N)
-                if isinstance(got, int) and got != acc and not (acc < N and got <= 0 and False):
-                    return 'bad', 'after the partial results %s the function returns %s although %d byte(s) were transferred' % (script, got, acc)
+                    if last and done < N and res > 0:
+                        return 'bad', 'the loop stops after %d of %d bytes although the last OS call made progress (script of OS results %s): the rest of the data is never transferred' % (done, N, script)
+                if not calls and N > 0:
+                    return 'bad', 'no OS call is made for a request of %d bytes' % N
+                if isinstance(got, int) and got != done:
+                    return 'bad', 'after the partial results %s the function returns %s although %d byte(s) were transferred' % (results, got, done)
     except (scansim.Unsupported, scansim.OOB, TypeError, KeyError, IndexError):
         return None
     ctx.evaluations += runs
